@@ -152,7 +152,16 @@ static void run_case(const std::vector<std::string>& t) {
 
     IndexClassification IC(SM);
     bool crashed = guarded_prepare(IC, order_spins);
-    out << state_fields(IC, SM, in, crashed);
+    std::string original = state_fields(IC, SM, in, crashed);
+    out << original;
+    // K <id> <same|DIFFERS|skipped>: a copy of the prepared object (pass by value, a member of a user's class) must answer every
+    // query as the object it was copied from
+    out << "\nK " << in.id << " ";
+    if (crashed) out << "skipped";
+    else {
+        IndexClassification CP(IC);
+        out << (state_fields(CP, SM, in, false) == original ? "same" : "DIFFERS");
+    }
 
     out << "\nH " << in.id;
     for (std::set<std::string>::const_iterator it = in.all_labels.begin(); it != in.all_labels.end(); ++it) {
